@@ -449,7 +449,7 @@ func TestVerifC15(t *testing.T) {
 	defer rep.Flush()
 	rep.Set("rule", "round i = PRNG(seed,'C15',i): real router + real scheduler (mock runners) + real store; 8-32 client goroutines each issue 30-80 requests drawn from generate/chat (stream and not), embed, ps, tags, show, unload (keep_alive 0), create-from, copy, delete, blob upload, OpenAI chat, with keep-alives of 0-20 ms and MAX_LOADED_MODELS 1-2 so that loads and unloads are continuous; built with -race. Violations: every distinct data-race report of the race detector (identity = innermost ollama frames of the two accesses), every handler panic recovered by gin, process death, a /api/ps reply listing a model all of whose runners had completed Close before the request was sent, and requests that never finish with goroutines parked on server mutexes. Non-trivial & distinct = distinct (clients, max_loaded, parallel, gomaxprocs, keep_alive) configurations of rounds in which at least one runner was closed while requests were in flight")
 	rep.Set("assumptions", []string{"mock runners; pull/push are not in the statement's list of request kinds and are not driven here", "race identity: pair of innermost github.com/ollama/ollama frames (function names)"})
-	n := cfg.N(18, 120)
+	n := cfg.N(18, 480)
 	for i := 0; i < n; i++ {
 		if !cfg.Mine(i) || rep.Enough() || rep.OverBudget() {
 			continue
